@@ -119,9 +119,13 @@ def strategy(tier):
     # threaded, sequential: the application ends the connection itself,
     # connected or in the middle of a reconnection
     appd = st.fixed_dictionaries({
-        'aio': st.just(False), 'appdisc': st.just(True),
+        'aio': st.booleans(), 'appdisc': st.just(True),
         'n_before': st.integers(0, 2), 'lost': st.booleans(),
-        'received': st.integers(0, 2)})
+        'received': st.integers(0, 2),
+        # how far the reconnection effort has got when the application
+        # disconnects: its task / thread has been started but has not run
+        # yet, or it sits in its first back-off wait
+        'early': st.booleans()})
     return st.one_of(sync, asy, asy, appd)
 
 
@@ -218,6 +222,11 @@ def _check_sync_appdisc(case):
         labels['application_disconnects_during_reconnection'] = True
         n_att = len(h.attempts)
         fired = []
+        if case.get('early'):
+            # the effort's thread has been started, it has not run yet
+            fired.append(1)
+            sc.disconnect()
+            labels['disconnect_before_the_effort_runs'] = True
 
         def on_wait(ev, timeout):
             # the effort's thread sits in its first back-off wait when the
@@ -269,11 +278,127 @@ def _check_sync_appdisc(case):
     return labels
 
 
+def _check_async_appdisc(case):
+    socketio = core.bootstrap()
+    from ..detloop import DetLoop
+    loop = DetLoop()
+    try:
+        holder = {}
+
+        def factory(*a, **k):
+            h = ClientHarness(aio=True, loop=loop, reconnection=True,
+                              reconnection_attempts=2, reconnection_delay=1,
+                              randomization_factor=0)
+            holder['h'] = h
+            return h.sio
+        sc = socketio.AsyncSimpleClient()
+        sc.client_class = factory
+        t = loop.spawn(sc.connect('http://h', namespace='/ns'))
+        loop.run_until_idle()
+        h = holder['h']
+        for f in wire.frames(wire.CONNECT, '/ns', None, {'sid': 'sid1'}):
+            h.deliver(f)
+        loop.run_until_idle()
+        if not t.done() or t.exception():
+            raise core.HarnessError('simple client did not connect: %r' % t)
+        labels = {'aio': True, 'application_disconnects': True,
+                  'nontrivial': bool(case['lost'])}
+        for i in range(case['n_before']):
+            for f in wire.frames(wire.EVENT, '/ns', None, ['e', i]):
+                h.deliver(f)
+        loop.run_until_idle()
+        got = []
+
+        def recv():
+            rt = loop.spawn(sc.receive(timeout=1))
+            loop.run_until_idle()
+            for _ in range(3):
+                if not rt.done():
+                    loop.advance()
+            if not rt.done():
+                raise Violation(KF_HANG, 'receive(timeout=1) never returns')
+            if rt.exception() is not None:
+                raise rt.exception()
+            return rt.result()
+        for i in range(min(case['received'], case['n_before'])):
+            got.append(recv())
+        if case['lost']:
+            h.plan[:] = ['fail', 'fail']
+            labels['application_disconnects_during_reconnection'] = True
+            if case.get('early'):
+                async def tail():
+                    await h.eio._trigger_event('disconnect',
+                                               h.reason.TRANSPORT_ERROR,
+                                               run_async=False)
+                    await h.eio._reset()
+                lt = loop.spawn(tail())
+                for _ in range(50):
+                    if lt.done() or h.sio._reconnect_task is not None:
+                        break
+                    loop.step()
+                labels['disconnect_before_the_effort_runs'] = True
+            else:
+                h.lose()
+                loop.run_until_idle()
+        n_att = len(h.attempts)
+        dt = loop.spawn(sc.disconnect())
+        loop.run_until_idle()
+        for _ in range(6):
+            if not loop.advance():
+                break
+        if not dt.done():
+            raise Violation('disconnect-failed', 'disconnect() of the '
+                            'simple client never returns')
+        if dt.exception() is not None:
+            raise Violation('disconnect-failed', 'disconnect() of the simple '
+                            'client raised %r' % (dt.exception(),))
+        if len(h.attempts) != n_att:
+            raise Violation('reconnection-after-disconnect',
+                            'the application called disconnect() on the '
+                            'simple client; %d further connection '
+                            'attempt(s) were made'
+                            % (len(h.attempts) - n_att))
+        while len(got) < case['n_before']:
+            try:
+                got.append(recv())
+            except Violation:
+                raise
+            except Exception as e:
+                raise Violation('event-lost-or-reordered',
+                                'received before the end but never '
+                                'returned: %r after %r' % (e, got))
+        if got != [['e', i] for i in range(case['n_before'])]:
+            raise Violation('event-lost-or-reordered', repr(got))
+        try:
+            v = recv()
+            raise Violation('event-lost-or-reordered', 'invented %r' % (v,))
+        except socketio.exceptions.DisconnectedError:
+            pass
+        except socketio.exceptions.TimeoutError:
+            raise Violation('timeout-after-the-end',
+                            'receive() after the application disconnected '
+                            '(transport lost before: %s) raises '
+                            'TimeoutError, not DisconnectedError'
+                            % case['lost'])
+        et = loop.spawn(sc.emit('x', 1))
+        loop.run_until_idle()
+        if not et.done():
+            raise Violation('emit-hangs-after-final-disconnect', '')
+        if not isinstance(et.exception(),
+                          socketio.exceptions.DisconnectedError):
+            raise Violation('emit-after-the-end', repr(et.exception()))
+        return labels
+    finally:
+        loop.shutdown()
+
+
 def check_case(case):
+    if case.get('appdisc'):
+        if case['aio']:
+            return _check_async_appdisc(case)
+        return _check_sync_appdisc(case)
     if case['aio']:
         return _check_async(case)
-    if case.get('appdisc'):
-        return _check_sync_appdisc(case)
     r = _CACHE.pop(_key(case), None)
     if r is not None:
         if isinstance(r, Violation):
